@@ -47,4 +47,19 @@ def addressableFrom : Node → Pos → Bool
 
 def addressable (root : Node) (pos : Pos) : Bool := addressableFrom root pos
 
+/-- the part of `addressable` that is about spelling alone: the position exists and every Dict child
+    on the way has a non-empty name, only the last of which may end in a backslash.  On such
+    positions `addressable` is EXACT (`find_fq_iff`): the inverse law holds iff, in addition, every
+    Dict child on the way is stored under its own name. -/
+def spellableFrom : Node → Pos → Bool
+  | _, [] => true
+  | .mk k _ _ kids, i :: p =>
+    match kids[i]? with
+    | none => false
+    | some c =>
+      (k != .map || (!c.name.isEmpty && (p.isEmpty || !endsWithBackslash c.name)))
+      && spellableFrom c p
+
+def spellable (root : Node) (pos : Pos) : Bool := spellableFrom root pos
+
 end Flatland.C13.Spec
